@@ -5,7 +5,8 @@ cells: the copies of the face ids held by the work set stay in step with the mes
 demands after every step, a pass that ends with an empty work set leaves no edge outside the band but blocked collapses
 (Complete), and every behaviour ends (liveness under weak fairness).
 Implementation level: real refine_mesh passes (swaps off) on lattice cells -- tetrahedra, bipyramids, octahedra, subdivided
-octahedra, jittered, with bands that make edges too long, too short, both, or sit narrowly between -- are validated by TLC
+octahedra, jittered, with bands that make edges too long, too short, both, or sit narrowly between; one pass on a fresh cell or
+three passes on the same cell with lattice displacements and compactions in between -- are validated by TLC
 (RefineTrace): the work set is not logged, the specification carries it, and an operation reported by the hooks is accepted
 only if its edge is the first out-of-band entry of the specification's work set with the face ids the specification's copy
 holds; the pass must end as the specification ends (normally / by the exception, same counter) and leave the mesh slot for
@@ -49,16 +50,9 @@ def _subdivide(pos, tris):
     return pos, out
 
 
-def _lens2(pos, tris):
-    E = set()
-    for t in tris:
-        for i in range(3):
-            E.add((min(t[i], t[(i + 1) % 3]), max(t[i], t[(i + 1) % 3])))
-    return sorted(sum((pos[a][i] - pos[b][i]) ** 2 for i in range(3)) for a, b in E)
-
-
 def gen_cases(n, rnd):
-    """lattice cells with 2-adic depth 6 (coordinates are multiples of 64, jitter of 16) and odd doubled thresholds"""
+    """lattice cells with 2-adic depth 6 (coordinates are multiples of 64, jitter of 16); one or three passes on the same cell, the band
+    of each pass derived by the driver from the current edge lengths by the named rule (odd doubled thresholds: no comparison ties)"""
     rows, K = [], 64
     for i in range(n):
         kind = i % 4
@@ -66,24 +60,9 @@ def gen_cases(n, rnd):
         pos, tris = (_octa(s) if kind == 0 else _bip(s) if kind == 1 else _tet(s) if kind == 2 else _subdivide(*_octa(s)))
         if i % 5 == 4:
             pos = [[x + 16 * rnd.randint(-1, 1) for x in p] for p in pos]
-        L = _lens2(pos, tris)
-        mode = rnd.randrange(6)
-        if mode == 0:
-            lo, hi = L[0] // 2, L[-1] // 3                       # some edges too long
-        elif mode == 1:
-            lo, hi = L[len(L) // 2], 4 * L[-1]                   # some too short
-        elif mode == 2:
-            lo, hi = L[len(L) // 3], max(L[2 * len(L) // 3], 3 * L[len(L) // 3])   # both
-        elif mode == 3:
-            lo, hi = L[len(L) // 2], 2 * L[len(L) // 2] + L[len(L) // 2] // 2     # a narrow band in the middle
-        elif mode == 4:
-            lo, hi = L[0] // 4, L[-1] - 1                        # only the longest edges, generous lower threshold
-        else:
-            lo, hi = L[0] - 1, 4 * L[-1]                         # nothing to do
-        lo, hi = 2 * max(lo, 1) + 1, 2 * hi + 1
-        if hi <= lo:
-            hi = lo + 2
-        rows.append({"id": i + 1, "nn": len(pos), "tris": tris, "pos": pos, "band": [lo, hi], "uexp": -24 if i % 2 else -17,
+        npass = 1 if i % 3 == 0 else 3
+        rows.append({"id": i + 1, "nn": len(pos), "tris": tris, "pos": pos, "modes": [rnd.randrange(6) for _ in range(npass)],
+                     "rebase": [0] + [rnd.randrange(2) for _ in range(npass - 1)], "uexp": -24 if i % 2 else -17,
                      "shift": [0, 0, 0] if i % 3 else [5000, -7000, 900]})
     return rows
 
@@ -127,7 +106,7 @@ def _validate(rows, work, tag):
 
 
 def stage(chk, tier, seed, rnd, bdir, work):
-    n = 160 if tier == "quick" else 2400
+    n = 90 if tier == "quick" else 1200
     cases = gen_cases(n, rnd)
     cpath, opath = os.path.join(work, "rp-cases.ndjson"), os.path.join(work, "rp-out.ndjson")
     vlib.write_ndjson(cpath, cases)
@@ -139,8 +118,8 @@ def stage(chk, tier, seed, rnd, bdir, work):
         chk.violation("driver-crash:lattice", "pass_driver terminated with status %d\n%s" % (rc, out[-600:]))
         return
     rows = vlib.read_ndjson(opath)
-    if len(rows) != len(cases):
-        raise ModelError("pass_driver wrote %d of %d records" % (len(rows), len(cases)))
+    if len(rows) < len(cases):
+        raise ModelError("pass_driver wrote %d records for %d cases" % (len(rows), len(cases)))
     verdicts, nstates, viol = _validate(rows, work, "real")
     if viol:
         # the model's own assurances fail along a real pass: the specification (or the design it describes) is wrong
@@ -162,7 +141,8 @@ def stage(chk, tier, seed, rnd, bdir, work):
     for r in rows:
         key = r["outcome"] + ("" if r["outcome"] != "done" or r["it"] < r["nedges"] else ":counter_overtook_edges")
         outcomes[key] = outcomes.get(key, 0) + 1
-    chk.cov["pass_model"] = {"lattice_passes": len(rows), "followed_to_the_end_exactly": followed, "cut_at_a_non_lattice_midpoint": cut,
+    chk.cov["pass_model"] = {"lattice_passes": len(rows), "of_which_on_a_cell_with_a_history": sum(1 for r in rows if r["pass"] > 0),
+                             "of_which_start_with_free_slots": sum(1 for r in rows if r["pre"]["freeN"] or r["pre"]["freeF"]), "followed_to_the_end_exactly": followed, "cut_at_a_non_lattice_midpoint": cut,
                              "not_followed": len(drift), "operations": opsn, "outcomes": outcomes, "trace_states": nstates}
     chk.cov["traces_validated_against_impl"] += followed
     if drift:
@@ -189,14 +169,14 @@ def stage(chk, tier, seed, rnd, bdir, work):
     if rej != 4 and not drift:
         raise ModelError("pass model: %d of 4 tampered passes rejected" % rej)
     # ---- design level: every order of the work set on the smallest cases
-    small = [r for r in rows if r["integral"] and r["nn"] <= 6 and 1 <= r["it"] <= (3 if tier == "quick" else 4)
+    small = [r for r in rows if r["integral"] and r["pass"] == 0 and r["pre"]["nslots"] <= 6 and 1 <= r["it"] <= (3 if tier == "quick" else 4)
              and verdicts[r["id"]][0] and r["outcome"] == "done"]
     small.sort(key=lambda r: (-sum(1 for o in r["ops"] if o["op"] == "split"), r["id"]))
     pick = small[:6 if tier == "quick" else 24]
     if len(pick) < 3:
         raise ModelError("vacuous: %d small passes for the exploration of all orders" % len(pick))
     spath = os.path.join(work, "rp-small.ndjson")
-    vlib.write_ndjson(spath, [{k: r[k] for k in ("nn", "tris", "pos", "band")} for r in pick])
+    vlib.write_ndjson(spath, [{"nn": r["pre"]["nslots"], "tris": r["pre"]["tri"], "pos": r["prepos"], "band": r["band"]} for r in pick])
     res = vlib.tlc(SPEC, "RefinePassMC", "Refine_any.cfg", env={"CASES": spath}, timeout=1500 if tier == "quick" else 3000, xmx="12g", cont=False)
     chk.add_tlc("Refine/Refine_any.cfg", res)
     if res.is_violation:
